@@ -156,7 +156,7 @@ func makeScript(seed uint64) *script {
 	}
 	sc.Exact = sc.Flate && sc.SrvKind != 3 && p.intn(3) == 0
 	if sc.Vanish == 0 && p.intn(8) == 0 {
-		sc.BadReq = 1 + p.intn(3)
+		sc.BadReq = 1 + p.intn(4)
 	}
 	sc.SrvDebug = sc.SrvKind == 0 && p.intn(2) == 0
 	sc.SrvShared = sc.SrvKind == 2 && !sc.Flate && p.intn(2) == 0
@@ -437,6 +437,7 @@ func runClient(sc *script, conn net.Conn, tr *transcript) {
 			1: "GET /session/bad HTTP/1.1\r\nHost: example.com\r\nConnection: Upgrade\r\nSec-WebSocket-Version: 13\r\nSec-WebSocket-Key: dGhlIHNhbXBsZSBub25jZQ==\r\n\r\n",
 			2: "GET /session/bad HTTP/1.1\r\nHost: example.com\r\nUpgrade: websocket\r\nConnection: Upgrade\r\nSec-WebSocket-Version: 12\r\nSec-WebSocket-Key: dGhlIHNhbXBsZSBub25jZQ==\r\n\r\n",
 			3: "POST /session/bad HTTP/1.1\r\nHost: example.com\r\nUpgrade: websocket\r\nConnection: Upgrade\r\nSec-WebSocket-Version: 13\r\nSec-WebSocket-Key: dGhlIHNhbXBsZSBub25jZQ==\r\n\r\n",
+			4: "GET /session/unwelcome HTTP/1.1\r\nHost: example.com\r\nUpgrade: websocket\r\nConnection: Upgrade\r\nSec-WebSocket-Version: 13\r\nSec-WebSocket-Key: dGhlIHNhbXBsZSBub25jZQ==\r\n\r\n",
 		}[sc.BadReq]
 		conn.Write([]byte(req))
 		resp, err := http.ReadResponse(bufio.NewReader(conn), nil)
@@ -445,6 +446,10 @@ func runClient(sc *script, conn net.Conn, tr *transcript) {
 			return
 		}
 		body, _ := io.ReadAll(resp.Body)
+		if sc.BadReq == 4 {
+			tr.add("rejection by the hook: status=%d body=%q", resp.StatusCode, body)
+			return
+		}
 		want := fmt.Sprint(sc.Seed)
 		tr.add("rejection: status=%d x-session=%q (own=%v) body=%q", resp.StatusCode, resp.Header.Get("X-Session"), resp.Header.Get("X-Session") == want, body)
 		return
@@ -550,6 +555,9 @@ func (c *bufRWConn) Write(p []byte) (int, error) {
 	return n, err
 }
 
+// SharedRejection is the application's one rejection value (status-less).
+var SharedRejection = ws.RejectConnectionError()
+
 // runServer is the server task of a session.
 func runServer(sc *script, conn net.Conn, tr *transcript) {
 	s := &side{sc: sc, conn: conn, client: false, tr: tr, state: ws.StateServerSide}
@@ -571,6 +579,18 @@ func runServer(sc *script, conn net.Conn, tr *transcript) {
 		err error
 	)
 	accept := func(p string) bool { return p == "superchat" || p == "chat" }
+	if sc.BadReq == 4 {
+		// The application refuses the client in a hook, with the one
+		// rejection value all its connections share (no status of its own:
+		// the library's default applies). The value stays the application's.
+		u := ws.Upgrader{OnRequest: func(uri []byte) error { return SharedRejection }}
+		_, err = u.Upgrade(conn)
+		tr.add("handshake refused by the hook: %v", err)
+		if rej, ok := SharedRejection.(*ws.ConnectionRejectedError); !ok || rej.StatusCode() != 0 {
+			tr.add("the application's shared rejection value is not intact: %#v", SharedRejection)
+		}
+		return
+	}
 	if sc.BadReq > 0 {
 		u := ws.Upgrader{Header: ws.HandshakeHeaderString(fmt.Sprintf("X-Session: %d\r\n", sc.Seed))}
 		_, err = u.Upgrade(conn)
